@@ -3,6 +3,7 @@
    theorems are those of the one-direction channel LTS (model/Chan1.v) at those capacities. *)
 From Coq Require Import ZArith List Bool Lia.
 From Grpchan Require Import gen.Inproc model.Chan1 proofs.Chan1.
+From Grpchan Require proofs.StreamOrder proofs.StreamDeliver proofs.StreamFlow.
 From Grpchan Require model.InprocStream proofs.StreamInv.
 Import ListNotations.
 Close Scope Z_scope.
@@ -49,3 +50,32 @@ Proof. exact StreamInv.reachable_queues_bounded. Qed.
 Print Assumptions C20_full_stream_buffers.
 Theorem C20_full_stream_caps : InprocStream.req_capn = 1 /\ InprocStream.resp_capn = 1.
 Proof. split; reflexivity. Qed.
+
+(* back-pressure over the COMPLETE in-process stream LTS in terms of what the operations did (ghost histories and
+   the operation log), every interleaving, cancellation and deadline included: what was put on a channel exceeds
+   what was taken off it by at most the capacity, and so do the sends that returned nil on either side *)
+Theorem C20_full_stream_responses_in_flight : forall rs s h,
+  Grpchan.proofs.StreamDeliver.lreach rs s h ->
+  length (Grpchan.proofs.StreamDeliver.hp h) <= length (Grpchan.proofs.StreamDeliver.hq h) + InprocStream.resp_capn.
+Proof. exact Grpchan.proofs.StreamFlow.responses_in_flight. Qed.
+Print Assumptions C20_full_stream_responses_in_flight.
+
+Theorem C20_full_stream_requests_in_flight : forall rs s h,
+  Grpchan.proofs.StreamDeliver.lreach rs s h ->
+  length (Grpchan.proofs.StreamDeliver.rp h) <= length (Grpchan.proofs.StreamDeliver.rq h) + InprocStream.req_capn.
+Proof. exact Grpchan.proofs.StreamFlow.requests_in_flight. Qed.
+Print Assumptions C20_full_stream_requests_in_flight.
+
+Theorem C20_full_stream_handler_sends_ahead : forall rs s h,
+  Grpchan.proofs.StreamDeliver.lreach rs s h ->
+  length (Grpchan.proofs.StreamDeliver.handler_acked (Grpchan.proofs.StreamDeliver.lg h)) <=
+  length (Grpchan.proofs.StreamOrder.datas (Grpchan.proofs.StreamDeliver.hq h)) + InprocStream.resp_capn.
+Proof. exact Grpchan.proofs.StreamFlow.handler_sends_ahead. Qed.
+Print Assumptions C20_full_stream_handler_sends_ahead.
+
+Theorem C20_full_stream_client_sends_ahead : forall rs s h,
+  Grpchan.proofs.StreamDeliver.lreach rs s h ->
+  length (Grpchan.proofs.StreamDeliver.client_acked (Grpchan.proofs.StreamDeliver.lg h)) <=
+  length (Grpchan.proofs.StreamDeliver.rq h) + InprocStream.req_capn.
+Proof. exact Grpchan.proofs.StreamFlow.client_sends_ahead. Qed.
+Print Assumptions C20_full_stream_client_sends_ahead.
